@@ -137,3 +137,17 @@ def read_text(path):
             return f.read()
     except (IOError, OSError):
         return None
+
+
+def is_write_event(ev):
+    from rv.monitors import audit
+    if ev[0] != "open":
+        return False
+    mode = ev[2]
+    if isinstance(mode, str) and mode.startswith("flags:"):
+        try:
+            fl = int(mode[6:])
+        except ValueError:
+            return False
+        return bool(fl & (os.O_WRONLY | os.O_RDWR | os.O_CREAT | os.O_TRUNC | os.O_APPEND))
+    return audit.is_write_mode(mode)
